@@ -48,9 +48,16 @@ func genC15(t *rapid.T) C15Case {
 		Depth:    rapid.IntRange(1, depthMax(6, 8)).Draw(t, "depth"),
 		MaxArity: rapid.SampledFrom([]int{2, 2, 2, 3, 5}).Draw(t, "maxarity"),
 		Failing:  rapid.IntRange(0, 3).Draw(t, "failing") == 0,
-		Custom:   true, Stateful: true, Consts: true, Aliases: true,
+		Custom:   true, Consts: true, Aliases: true, // no stateful operator: the optimized program may call it less often
 	}}
-	tree := g.Expr(rootTy(t), g.Depth)
+	ty := m.TBool
+	if rapid.IntRange(0, 3).Draw(t, "introot") == 0 {
+		ty = m.TInt
+	}
+	tree := g.Expr(ty, g.Depth)
+	if tree.IsLeaf() && rapid.IntRange(0, 3).Draw(t, "keepleaf") != 0 {
+		tree = g.Expr(ty, g.Depth+1)
+	}
 	fixEmptyLists(tree)
 	normSymbolic(tree)
 	u := UniverseFor(t, tree, false)
